@@ -7,59 +7,175 @@
 (* total and registers one more hook on the request (upstream.go:186-196); *)
 (* per-command counters move with the downstream request when a handler    *)
 (* exists; all hooks of a request run when it is completed.                *)
+(*                                                                         *)
+(* Service stop (redis.go Stop, upstream.go Serve/Stop): the sessions end  *)
+(* first WITHOUT waiting for their requests at the backends, then the      *)
+(* upstream's quit latch is closed (phase "quit"), the slots refresher and *)
+(* the hot key collector leave, and only then the backend clients are      *)
+(* stopped (phase "stopped") and drain what they still hold.  While the    *)
+(* latch is closed and the clients are alive a send is still possible:     *)
+(*  - a redirection reply (MOVED/ASK) for a request that is still in       *)
+(*    flight makes the client's reader call MakeRequestToHost again;       *)
+(*  - the refresher (loopRefreshSlots) that took the pending refresh       *)
+(*    trigger instead of the quit signal (Go's select picks at random when *)
+(*    both are ready) issues its "cluster nodes" request.                  *)
+(* Such a send is counted in the upstream total and answered at once with  *)
+(* "upstream exited".  HookBeforeQuitCheck = TRUE (the code): the          *)
+(* completion hook is registered before the latch is looked at, so the     *)
+(* answer is counted as a failure.  FALSE: the hook is registered only     *)
+(* once the latch was found open - the total stays one ahead for ever      *)
+(* (must violate Conserved: anti-vacuity).                                 *)
+(*                                                                         *)
+(* The refresher's own requests ("cluster nodes") have no downstream and   *)
+(* no per-command counters; at most one is outstanding.  A pick of the     *)
+(* pending trigger after the latch was closed is the same behaviour as the *)
+(* pick just before it, so RefreshPick is only modelled in phase           *)
+(* "serving".                                                              *)
 (***************************************************************************)
 EXTENDS Naturals, FiniteSets, TLC
 
-CONSTANTS Reqs, MaxResends
+CONSTANTS Reqs, MaxResends,
+          MaxRefresh,            \* bound on the refresh rounds of one behaviour
+          HookBeforeQuitCheck    \* TRUE: the code; FALSE: hook registered after the fail-fast check of the quit latch
 
 VARIABLES st,        \* st[r]: "new" | "rejected" | "inflight" | "done"
           known,     \* known[r]: a handler exists for the command (per-command counters are kept)
-          hooks,     \* hooks[r]: upstream hooks registered on r so far (= number of sends)
+          hooks,     \* hooks[r]: upstream hooks registered on r so far (= number of sends while the latch was open)
+          phase,     \* "serving" | "quit" (upstream.quit closed, backend clients alive) | "stopped" (clients stopped)
+          rf,        \* refresher: "idle" (at its select) | "picked" (took the trigger) | "waiting" (for the reply) | "exited"
+          tok,       \* slotsRefreshCh holds a trigger
+          iout,      \* the refresher's "cluster nodes" request is outstanding at a backend client (one hook)
+          nref,      \* refresh rounds so far
           dTotal, dOK, dFail, uTotal, uOK, uFail, cTotal, cOK, cErr
 
-vars == <<st, known, hooks, dTotal, dOK, dFail, uTotal, uOK, uFail, cTotal, cOK, cErr>>
+vars == <<st, known, hooks, phase, rf, tok, iout, nref, dTotal, dOK, dFail, uTotal, uOK, uFail, cTotal, cOK, cErr>>
+refr == <<rf, tok, iout, nref>>
+dcnt == <<dTotal, dOK, dFail>>
+ccnt == <<cTotal, cOK, cErr>>
+
+LateHook == IF HookBeforeQuitCheck THEN 1 ELSE 0
 
 Init ==
   /\ st = [r \in Reqs |-> "new"] /\ known \in [Reqs -> BOOLEAN] /\ hooks = [r \in Reqs |-> 0]
+  /\ phase = "serving" /\ rf = "idle" /\ tok = TRUE /\ iout = FALSE /\ nref = 0   \* loopRefreshSlots triggers at once
   /\ dTotal = 0 /\ dOK = 0 /\ dFail = 0 /\ uTotal = 0 /\ uOK = 0 /\ uFail = 0
   /\ cTotal = 0 /\ cOK = 0 /\ cErr = 0
 
 \* handleRequest: invalid shape or unknown command -> error reply at once; local commands -> answered at once
 DispatchLocal(r, ok) ==
+  /\ phase = "serving" /\ (ok => known[r])
   /\ st[r] = "new" /\ st' = [st EXCEPT ![r] = "done"]
   /\ dTotal' = dTotal + 1
   /\ IF ok THEN dOK' = dOK + 1 /\ UNCHANGED dFail ELSE dFail' = dFail + 1 /\ UNCHANGED dOK
   /\ IF known[r] THEN /\ cTotal' = cTotal + 1
                       /\ (IF ok THEN cOK' = cOK + 1 /\ UNCHANGED cErr ELSE cErr' = cErr + 1 /\ UNCHANGED cOK)
-                 ELSE UNCHANGED <<cTotal, cOK, cErr>>
-  /\ UNCHANGED <<known, hooks, uTotal, uOK, uFail>>
+                 ELSE UNCHANGED ccnt
+  /\ UNCHANGED <<known, hooks, phase, refr, uTotal, uOK, uFail>>
 
-\* handleRequest -> MakeRequestToHost: first send
+\* handleRequest -> MakeRequestToHost: first send (sessions only exist while the service is serving)
 DispatchForward(r) ==
+  /\ phase = "serving"
   /\ st[r] = "new" /\ known[r] /\ st' = [st EXCEPT ![r] = "inflight"]
   /\ dTotal' = dTotal + 1 /\ cTotal' = cTotal + 1
   /\ uTotal' = uTotal + 1 /\ hooks' = [hooks EXCEPT ![r] = 1]
-  /\ UNCHANGED <<known, dOK, dFail, uOK, uFail, cOK, cErr>>
+  /\ UNCHANGED <<known, phase, refr, dOK, dFail, uOK, uFail, cOK, cErr>>
 
-\* handleRedirection -> MakeRequestToHost again
+\* handleRedirection -> MakeRequestToHost again, then triggerSlotsRefresh
 Resend(r) ==
+  /\ phase = "serving"
   /\ st[r] = "inflight" /\ hooks[r] <= MaxResends
   /\ uTotal' = uTotal + 1 /\ hooks' = [hooks EXCEPT ![r] = @ + 1]
-  /\ UNCHANGED <<st, known, dTotal, dOK, dFail, uOK, uFail, cTotal, cOK, cErr>>
+  /\ tok' = TRUE
+  /\ UNCHANGED <<st, known, phase, rf, iout, nref, dcnt, uOK, uFail, ccnt>>
 
-\* SetResponse: every registered hook runs
-Complete(r, ok) ==
+\* the redirection reply arrives between the close of the quit latch and the stop of the backend clients:
+\* counted, (hook,) fail-fast answer "upstream exited" -> every registered hook runs
+ResendAfterQuit(r) ==
+  /\ phase = "quit"
+  /\ st[r] = "inflight" /\ hooks[r] <= MaxResends
+  /\ st' = [st EXCEPT ![r] = "done"]
+  /\ uTotal' = uTotal + 1 /\ hooks' = [hooks EXCEPT ![r] = @ + LateHook]
+  /\ uFail' = uFail + hooks[r] + LateHook
+  /\ dFail' = dFail + 1 /\ cErr' = cErr + 1
+  /\ UNCHANGED <<known, phase, refr, dTotal, dOK, uOK, cTotal, cOK>>
+
+Finished(r, ok) ==
   /\ st[r] = "inflight" /\ st' = [st EXCEPT ![r] = "done"]
   /\ IF ok THEN /\ dOK' = dOK + 1 /\ uOK' = uOK + hooks[r] /\ cOK' = cOK + 1 /\ UNCHANGED <<dFail, uFail, cErr>>
            ELSE /\ dFail' = dFail + 1 /\ uFail' = uFail + hooks[r] /\ cErr' = cErr + 1 /\ UNCHANGED <<dOK, uOK, cOK>>
-  /\ UNCHANGED <<known, hooks, dTotal, uTotal, cTotal>>
+  /\ UNCHANGED <<known, hooks, phase, refr, dTotal, uTotal, cTotal>>
 
-Next == \E r \in Reqs : (\E ok \in BOOLEAN : DispatchLocal(r, ok) \/ Complete(r, ok)) \/ DispatchForward(r) \/ Resend(r)
+\* SetResponse (backend reply / backend failure): every registered hook runs
+Complete(r, ok) == phase = "serving" /\ Finished(r, ok)
+\* ... the same while the quit latch is closed and the backend clients are still alive (nobody waits for it any more)
+CompleteAfterQuit(r, ok) == phase = "quit" /\ Finished(r, ok)
+\* client.Stop -> drainRequests: "backend exited"
+Drain(r) == phase = "stopped" /\ Finished(r, FALSE)
+
+\* ---- the slots refresher
+\* host added / removed / replaced, CLUSTERDOWN, periodic timer
+Trigger ==
+  /\ phase = "serving" /\ ~tok /\ tok' = TRUE
+  /\ UNCHANGED <<st, known, hooks, phase, rf, iout, nref, dcnt, uTotal, uOK, uFail, ccnt>>
+
+RefreshPick ==
+  /\ phase = "serving" /\ rf = "idle" /\ tok /\ nref < MaxRefresh
+  /\ rf' = "picked" /\ tok' = FALSE /\ nref' = nref + 1
+  /\ UNCHANGED <<st, known, hooks, phase, iout, dcnt, uTotal, uOK, uFail, ccnt>>
+
+\* doSlotsRefresh -> MakeRequestToHost
+RefreshSend ==
+  /\ phase = "serving" /\ rf = "picked"
+  /\ uTotal' = uTotal + 1 /\ iout' = TRUE /\ rf' = "waiting"
+  /\ UNCHANGED <<st, known, hooks, phase, tok, nref, dcnt, uOK, uFail, ccnt>>
+
+\* the refresher took the trigger, then the latch was closed: counted, (hook,) "upstream exited", refresher leaves
+RefreshSendAfterQuit ==
+  /\ phase = "quit" /\ rf = "picked"
+  /\ uTotal' = uTotal + 1 /\ uFail' = uFail + LateHook /\ rf' = "exited"
+  /\ UNCHANGED <<st, known, hooks, phase, tok, iout, nref, dcnt, uOK, ccnt>>
+
+IFinished(ok) ==
+  /\ iout /\ iout' = FALSE
+  /\ IF ok THEN uOK' = uOK + 1 /\ UNCHANGED uFail ELSE uFail' = uFail + 1 /\ UNCHANGED uOK
+  /\ UNCHANGED <<st, known, hooks, phase, nref, dcnt, uTotal, ccnt>>
+
+\* reply to "cluster nodes"; a failed refresh asks for another one
+RefreshDone(ok) ==
+  /\ phase = "serving" /\ rf = "waiting" /\ IFinished(ok)
+  /\ rf' = "idle" /\ tok' = (tok \/ ~ok)
+\* the refresher has left (doSlotsRefresh returns on quit), its request is still at the backend client
+RefreshDoneAfterQuit(ok) == phase = "quit" /\ IFinished(ok) /\ UNCHANGED <<rf, tok>>
+RefreshDrain == phase = "stopped" /\ IFinished(FALSE) /\ UNCHANGED <<rf, tok>>
+
+\* ---- stop
+\* redisProc.Stop: sessions gone, upstream.Stop closes quit; a refresher at its select or waiting for a reply leaves
+Quit ==
+  /\ phase = "serving" /\ phase' = "quit"
+  /\ rf' = IF rf = "picked" THEN "picked" ELSE "exited"
+  /\ UNCHANGED <<st, known, hooks, tok, iout, nref, dcnt, uTotal, uOK, uFail, ccnt>>
+
+\* upstream.Serve: wg.Wait (refresher, collector), then every backend client is stopped
+ClientsStop ==
+  /\ phase = "quit" /\ rf = "exited" /\ phase' = "stopped"
+  /\ UNCHANGED <<st, known, hooks, refr, dcnt, uTotal, uOK, uFail, ccnt>>
+
+ReqStep(r) ==
+  \/ \E ok \in BOOLEAN : DispatchLocal(r, ok) \/ Complete(r, ok) \/ CompleteAfterQuit(r, ok)
+  \/ DispatchForward(r) \/ Resend(r) \/ ResendAfterQuit(r) \/ Drain(r)
+
+Next ==
+  \/ \E r \in Reqs : ReqStep(r)
+  \/ Trigger \/ RefreshPick \/ RefreshSend \/ RefreshSendAfterQuit
+  \/ \E ok \in BOOLEAN : RefreshDone(ok) \/ RefreshDoneAfterQuit(ok)
+  \/ RefreshDrain \/ Quit \/ ClientsStop
 Spec == Init /\ [][Next]_vars
 
-Quiescent == \A r \in Reqs : st[r] \in {"new", "done"}
+Quiescent == (\A r \in Reqs : st[r] \in {"new", "done"}) /\ ~iout
 Conserved == Quiescent => /\ dTotal = dOK + dFail
                           /\ uTotal = uOK + uFail
                           /\ cTotal = cOK + cErr
 NeverAhead == dOK + dFail <= dTotal /\ uOK + uFail <= uTotal /\ cOK + cErr <= cTotal
+\* a stopped service becomes quiescent: nothing but drains is left, and they are enabled
+StoppedDrains == phase = "stopped" => (Quiescent \/ ENABLED (RefreshDrain \/ \E r \in Reqs : Drain(r)))
 =============================================================================
